@@ -142,6 +142,7 @@ func (s *server) HandleUpgrade(ctx *types.HttpContext) {
 		} else {
 			conn.SetReadLimit(s.Opts().MaxHttpBufferSize())
 			wsc.Conn = conn
+			wsc.MaxPayload = s.Opts().MaxHttpBufferSize()
 			s.onWebSocket(ctx, wsc)
 		}
 	}
